@@ -1,7 +1,7 @@
 // C13 — stabilize returns only fixed points and honours its iteration contract.
 // Function encoded: precis_core::profile::stabilize (real code, real Cow/String).
 // `f` ranges over ALL functions on K distinct strings into (K strings + failure): a symbolic table.
-use crate::sup::*;
+use super::sup::*;
 use core::cell::Cell;
 use precis_core::profile::stabilize;
 use precis_core::{CodepointInfo, DerivedPropertyValue, Error};
